@@ -364,7 +364,7 @@ def case_key(v):
     return core.canon([v["pa"], v["ra"], hg.tags_of(v), v["pv"], v["rv"]])
 
 
-CONTAINER_NESTS = ("elem", "mapkey", "mapval", "mapval_elem", "mapparams", "elem_nested", "mapval_nested", "mapkey_alias", "whole_elem", "whole_mapval")
+CONTAINER_NESTS = ("elem", "mapkey", "mapval", "mapval_elem", "mapparams", "alias_elem", "alias_mapval", "elem_nested", "mapval_nested", "mapkey_alias", "whole_elem", "whole_mapval")
 
 
 def emptyish(a, x):
